@@ -83,6 +83,7 @@ def prepare(release=False):
                       "RefParams", "ref/params.json")
     p.loader_failures = gen_coq.gen_loader(facts["loader"], "LoaderData", "rspirv/dr/loader.rs via rs2coq")
     p.lift_failures = gen_coq.gen_lift(facts.get("lift"), "LiftData", "rspirv/lift/autogen_context.rs via rs2coq")
+    p.opreflect_failures = gen_coq.gen_opreflect(facts.get("opreflect"), load_ref("operand_reflect.json"))
     gen_coq.gen_traverse(facts["traverse"], "TraverseData", "rspirv/dr/constructs.rs, rspirv/binary/assemble.rs via rs2coq")
     if p.dump_spirv is not None:
         gen_coq.gen_spirv_dump(p.dump_spirv, "DumpSpirv")
